@@ -42,7 +42,7 @@ THEOREM_NOTES = {
                     "sum x_k q_k with C01's q), C04_mean_rate_explicit (the right-hand side in terms of int_l^r x nu) and "
                     "C04_conversions_preserve_mean (all four generated conversions keep the first cumulant)",
 }
-LEVEL_TEXT = ("Proof: 13 Coq theorems (closed under the global context): compute_mu_h's running-boundary loop equals sum_k x_k q_k for every "
+LEVEL_TEXT = ("Proof: 14 Coq theorems (closed under the global context): compute_mu_h's running-boundary loop equals sum_k x_k q_k for every "
               "axis; process_drift + sum_k x_k q_k equals the first cumulant per unit time of (a, sigma, nu|[l,r]) in the declared "
               "representation for all four representations and both variation flags (pure algebra over additivity of the first-moment "
               "integral; the four conversions are re-translated from levymodel.py on every run); sigma_h^2 = sigma^2 for finite variation "
@@ -234,6 +234,9 @@ def correspond(res):
               "Model.Chain Model.Drift.\nOpen Scope Q_scope.")
     res.case_lemmas += len(groups)
     for gname, ty_, chk, cs in groups:
+        if not cs:
+            res.broke(f"correspondence {gname}", "the generator produced no case for this group")
+            continue
         bad, _ = parallel_coq_bad(PROP, f"cases_{gname}", header, ty_, chk, cs, shard=(2 if gname in ("copuladrift", "copulasig2") else 10), jobs=14)
         if bad:
             res.broke(f"correspondence {gname}", f"model and implementation differ on {len(bad)} case(s), first: {cs[bad[0]][:1500]}")
@@ -295,7 +298,7 @@ def _real_stream(res, rng, viol, scale):
                     except ValueError:
                         res.bump("real_grid_ValueError", f"{fam}/{gname}")
                         continue
-                    lv = rng.choice([0, 1]) if gname != "probstep" else 0
+                    lv = rng.choice([0, 1])        # probability-step grids too (the refined grid's own middle)
                     for _ in range(lv):
                         grid.refine()
                     ctx = dict(kind="real", model=spec, exponential=exponential, grid=gname, h=float(grid.h), levels=lv,
